@@ -1,4 +1,9 @@
 """Runs every translator (used by setup.sh so that coq/Gen exists before the full build)."""
 def run_all():
-    from harness.props import c17
-    return {"pickle": c17.translate()}
+    from harness.props import c17, c01
+    out = {"pickle": c17.translate(), "propensity": c01.translate()}
+    try:
+        from harness.props import c20
+        if hasattr(c20, "translate"): out["queue"] = c20.translate()
+    except ImportError: pass
+    return out
